@@ -43,7 +43,8 @@ def gen_reference(rnd, n_labels, repetitive=False):
 
 def gen_query(rnd, refs, kind):
     """returns (positions, truth dict)"""
-    rid = rnd.randrange(len(refs))
+    usable = [i for i, r in enumerate(refs) if len(r[2]) >= 20]
+    rid = rnd.choice(usable)
     rpos = refs[rid][2]
     n = len(rpos)
 
@@ -75,7 +76,7 @@ def gen_query(rnd, refs, kind):
             lab = sorted(set(lab))
     elif kind == 'chimeric':
         a, b = window(10, 20)
-        rid2 = rnd.randrange(len(refs))
+        rid2 = rnd.choice(usable)
         r2 = refs[rid2][2]
         k2 = rnd.randint(8, min(20, len(r2) - 1))
         a2 = rnd.randint(0, len(r2) - k2)
@@ -113,12 +114,17 @@ def gen_query(rnd, refs, kind):
 KINDS = ('exact', 'noisy', 'stretched', 'indel', 'chimeric', 'degenerate')
 
 
-def gen_set(seed, n_queries=(6, 10), kinds=KINDS, weights=None, n_refs=None):
+def gen_set(seed, n_queries=(6, 10), kinds=KINDS, weights=None, n_refs=None, odd_refs=False):
     rnd = random.Random(seed)
     refs = []
     for i in range(n_refs or rnd.randint(1, 3)):
         pos, length = gen_reference(rnd, rnd.randint(40, 120), repetitive=(rnd.random() < 0.25))
         refs.append((i + 1, length, pos))
+    if odd_refs and rnd.random() < 0.5:
+        # degenerate references: one label, or a long molecule whose labels cover only a short stretch
+        k = rnd.choice((1, 1, 2, 4))
+        pos = sorted(rnd.randint(500, 12000) for _ in range(k))
+        refs.append((len(refs) + 1, rnd.choice((pos[-1] + 10, 300000, 900000)), pos))
     queries, truths = [], {}
     nq = rnd.randint(*n_queries)
     for q in range(nq):
